@@ -207,6 +207,32 @@ pub fn add_shadow_import(p: &mut Program, rng: &mut Rng) -> bool {
         });
         stmts.push(Stmt::Let { id });
     }
+    // ... and one name of its own, used by the importer through the shared qualifier: imports under one qualifier add
+    // up, a later one does not replace an earlier one
+    let own = p.decls.len();
+    p.decls.push(Decl {
+        module: s_idx,
+        name: "zsown".into(),
+        params: vec![],
+        anns: vec![],
+        rhs: E::LitStr("only in the shadow".into()),
+        ty: Ty::Text,
+    });
+    stmts.push(Stmt::Let { id: own });
+    let user = p.decls.len();
+    p.decls.push(Decl {
+        module: m,
+        name: "zsuser".into(),
+        params: vec![],
+        anns: vec![],
+        rhs: E::Var {
+            qual: Some(q.clone()),
+            name: "zsown".into(),
+            target: Target::Decl(own),
+        },
+        ty: Ty::Text,
+    });
+    p.modules[m].stmts.push(Stmt::Let { id: user });
     p.modules.push(Module { file, stmts });
     let shadow_use = Stmt::Use {
         path: "zshadow.oal".into(),
